@@ -11,5 +11,5 @@ CONSTANTS
   CrashOn = FALSE
   BugPrecedence = FALSE
   BugLockLeak = FALSE
-INVARIANTS TypeOK CrashSafe NoPanic NoDoubleClose Unaffected
+INVARIANTS TypeOK CrashSafe NoPanic NoDoubleClose Unaffected AffectedFail
 CHECK_DEADLOCK TRUE
